@@ -250,9 +250,15 @@ class ArtimTask(Task):
 
 # the ARTIM argument above is made over the PS3.8 action table; that each real action function has exactly the table's effects
 # (ARTIM start/stop included) and next state, and that do_action performs the table's action, is C04's contract - borrowed
-RELABEL = {"C04/": "C05/actions:"}
+RELABEL = {"C04/": "C05/actions:", "C02/": "C05/receive:"}
+# "instead of the provider thread dying with an error": the actions convert the received PDU to a primitive INSIDE do_action, which
+# re-raises; that this cannot fail there rests on the receive path's contract (C02): whatever the peer sent, _read_pdu_data never
+# raises, queues exactly one receive event, and hands a PDU to the state machine only after that PDU converted once (and the
+# conversion does not modify the PDU, so it converts again) - a PDU that does not convert is Evt19
 RELABEL_ONLY = {"C04/": r"protocol-effects-are-exactly-PS3\.8|next-state-is-PS3\.8|performs-exactly-the-Table-9-10-action|"
-                        r"moves-to-the-state-the-action-returned|pair-not-in-Table-9-10"}
+                        r"moves-to-the-state-the-action-returned|pair-not-in-Table-9-10",
+                "C02/": r"_read_pdu_data/(a-PDU-is-queued-for-the-state-machine-only-after-it-converted|a-PDU-that-does-not-convert-is-reported-as-Evt19|"
+                        r"never-raises|queues-exactly-one-event|event-is-a-receive-event)|to_primitive/frame:does-not-modify-self|conversion-methods-found"}
 
 
 def tasks(tier):
@@ -260,7 +266,13 @@ def tasks(tier):
     from contracts.dul_reactor import DulReactorTask, TransportEventTask
     from contracts import C04
     return [ProcessPrimitiveTask(), ProducersScan(), ClosureTask(), ArtimTask(), SendTask(), DulReactorTask(), TransportEventTask()] + \
-        [C04.ActionTask(a) for a in sorted(S.ACTIONS)] + [C04.DoActionTask(e) for e in S.EVENTS]
+        [C04.ActionTask(a) for a in sorted(S.ACTIONS)] + [C04.DoActionTask(e) for e in S.EVENTS] + _receive_tasks()
+
+
+def _receive_tasks():
+    from contracts import recvpath
+    from contracts.C02 import ConversionFrameTask
+    return [recvpath.ReadPduTask(), ConversionFrameTask()]
 
 
 def replay(rec):
@@ -268,6 +280,8 @@ def replay(rec):
     oid = rec.get("id", "")
     if oid.startswith("C05/actions:"):
         return run_replay("C04", dict(rec, id="C04/" + oid[len("C05/actions:"):]))
+    if oid.startswith("C05/receive:"):
+        return run_replay("C02", dict(rec, id="C02/" + oid[len("C05/receive:"):]))
     return run_replay("C05", rec)
 
 
